@@ -12,9 +12,22 @@ GHOST = r'''
 #[verifier::external_body]
 #[verifier::reject_recursive_types(R)]
 pub struct Attempts<R> { p: core::marker::PhantomData<R> }
+// one entry of the map: (rules expected, rules unexpected, special errors) — the real tuple type of the source (`Tracked<R>`)
+pub type Tracked3<R> = (Vec<R>, Vec<R>, Vec<SpecialError>);
+pub struct EntryView<R> { pub expected: Seq<R>, pub unexpected: Seq<R>, pub special: Seq<SpecialError> }
+pub open spec fn view3<R>(t: Tracked3<R>) -> EntryView<R> { EntryView { expected: t.0@, unexpected: t.1@, special: t.2@ } }
+// the entry stored under a key (`entry(key).or_default()`: the empty entry when absent)
+pub uninterp spec fn entry_view<R>(a: Attempts<R>, key: Option<R>) -> EntryView<R>;
+// the key get_entry picks: the lowest enclosing rule frame that started at a different position (None if there is none)
+pub uninterp spec fn entry_key<R>(stack: Seq<(R, usize, bool)>, pos: nat) -> Option<R>;
 #[verifier::external_body]
-#[verifier::reject_recursive_types(R)]
-pub struct Tracked3<R> { p: core::marker::PhantomData<R> }
+pub broadcast proof fn axiom_empty_attempts<R>(a: Attempts<R>, key: Option<R>)
+    requires attempts_empty(a),
+    ensures #[trigger] entry_view(a, key) == (EntryView::<R> { expected: Seq::empty(), unexpected: Seq::empty(), special: Seq::empty() }),
+{ }
+// Eq on rule enums (derived): structural equality
+#[verifier::external_body]
+fn shim_rule_eq<R: RuleType>(a: R, b: R) -> (r: bool) ensures r == (a == b), { unimplemented!() }
 pub uninterp spec fn attempts_empty<R>(a: Attempts<R>) -> bool;
 impl<R> Attempts<R> {
     // BTreeMap::is_empty on the opaque map (so that code consulting it stays within the verified text)
@@ -29,7 +42,9 @@ fn shim_position_cmp<'i>(a: &Position<'i>, b: &Position<'i>) -> (r: core::cmp::O
     ensures (r is Less) == (a.pos < b.pos), (r is Equal) == (a.pos == b.pos), (r is Greater) == (a.pos > b.pos),
 { unimplemented!() }
 #[verifier::external_body]
-fn tracked3_push_special<R>(t: &mut Tracked3<R>, e: SpecialError) { unimplemented!() }
+fn tracked3_push_special<R>(t: &mut Tracked3<R>, e: SpecialError)
+    ensures final(t).0 == old(t).0, final(t).1 == old(t).1,
+{ unimplemented!() }
 '''
 
 
@@ -52,10 +67,11 @@ def build(U):
 
     im = U.impl(F, "impl<'i, R: RuleType> Tracker<'i, R>", r1=False).drop_attrs()
     keep = ['prepare', 'during', 'positive_during', 'negative_during', 'repeat_too_many_times', 'out_of_bound',
-            'empty_stack', 'record_during_with', 'record_during']
+            'empty_stack', 'same_with_last', 'record', 'record_during_with', 'record_during']
     im.keep_methods(keep)
     im.rw('R7', 'debug_assert_eq!(pos.input(), self.position.input());\n', '', count=2)
     im.rw('R3', 'pos.cmp(&self.position)', 'shim_position_cmp(&pos, &self.position)')
+    im.rw('R3', '*last == rule', 'shim_rule_eq(*last, rule)')
     im.rw('R3', 'self.get_entry(pos).2.push(SpecialError::RepeatTooManyTimes);', 'tracked3_push_special(self.get_entry(pos), SpecialError::RepeatTooManyTimes);')
     im.rw('R3', '''self.get_entry(pos)
                 .2
@@ -87,11 +103,31 @@ def build(U):
     #[verifier::external_body]
     fn get_entry<'s>(&'s mut self, pos: impl Input<'i>) -> (r: &'s mut Tracked3<R>)
         ensures final(self).position == old(self).position, final(self).positive == old(self).positive, final(self).stack == old(self).stack,
-    { unimplemented!() }
-    #[verifier::external_body]
-    fn record(&mut self, rule: R, pos: impl Input<'i>, succeeded: bool)
-%s
-    { unimplemented!() }''' % MONO)
+                // the entry under the key chosen from the rule-frame stack; the caller's writes go to that entry
+                view3(*r) == entry_view(old(self).attempts, entry_key(old(self).stack@, pos.off())),
+                entry_view(final(self).attempts, entry_key(old(self).stack@, pos.off())) == view3(*final(r)),
+                !attempts_empty(final(self).attempts) || view3(*final(r)) == (EntryView::<R> { expected: Seq::empty(), unexpected: Seq::empty(), special: Seq::empty() }),
+    { unimplemented!() }''')
+    im.ret('r', fname='same_with_last')
+    im.contract('        ensures r == (vec@.len() > 0 && vec@.last() == rule),', fname='same_with_last')
+    # C10 polarity: a rule is recorded exactly when its outcome contradicts the current polarity and the position is (now) the
+    # furthest one; a failure under positive polarity goes to the EXPECTED list, a success under negative polarity to the
+    # UNEXPECTED list, of the entry keyed by the enclosing rule frame; the other list of that entry is untouched
+    im.contract(MONO.rstrip() + '''
+                ({
+                    let key = entry_key(old(self).stack@, pos.off());
+                    let before = if pos.off() > old(self).position.pos { EntryView::<R> { expected: Seq::empty(), unexpected: Seq::empty(), special: Seq::empty() } } else { entry_view(old(self).attempts, key) };
+                    let after = entry_view(final(self).attempts, key);
+                    if pos.off() >= old(self).position.pos && succeeded != old(self).positive {
+                        if old(self).positive { after.expected.len() > 0 && after.expected.last() == rule && after.unexpected == before.unexpected
+                                                && (after.expected == before.expected || after.expected == before.expected.push(rule)) }
+                        else { after.unexpected.len() > 0 && after.unexpected.last() == rule && after.expected == before.expected
+                               && (after.unexpected == before.unexpected || after.unexpected == before.unexpected.push(rule)) }
+                    } else {
+                        final(self).attempts == old(self).attempts || (pos.off() > old(self).position.pos && attempts_empty(final(self).attempts))
+                    }
+                }),''', fname='record')
+    im.body_start('        broadcast use axiom_empty_attempts;', fname='record')
     im.rw_noop = None
     # during<Ret, POSITIVE>: f called exactly once on self, result returned, polarity restored
     im.ret('res', fname='during')
